@@ -273,6 +273,51 @@ func registerIntrinsics(e *Engine) {
 		return nil
 	})
 
+	// ----- internal/bytealg (assembly on amd64): exact definitions over a case-split length -----
+	byteElems := func(p *Path, v Value, why string) []*term.T {
+		switch s := v.(type) {
+		case *SliceV:
+			n := int(p.concretize(s.Len, why+" length"))
+			if n > 0 && !s.Off.IsConst() {
+				p.concretize(s.Off, why+" offset")
+			}
+			out := make([]*term.T, n)
+			for i, e := range p.sliceElems(s, n) {
+				out[i] = e.(*term.T)
+			}
+			return out
+		case StrV:
+			return p.strTerms(s)
+		case *SymStr:
+			return s.B
+		}
+		p.unsupported("%s on %T", why, v)
+		return nil
+	}
+	count := func(p *Path, _ *frame, _ *ssa.Function, args []Value, _ ssa.CallInstruction) Value {
+		F := p.F
+		c := args[1].(*term.T)
+		n := F.BVConst64(0, 64)
+		for _, e := range byteElems(p, args[0], "bytealg.Count") {
+			n = F.BvAdd(n, F.Ite(F.Eq(e, c), F.BVConst64(1, 64), F.BVConst64(0, 64)))
+		}
+		return n
+	}
+	r("internal/bytealg.Count", count)
+	r("internal/bytealg.CountString", count)
+	indexByte := func(p *Path, _ *frame, _ *ssa.Function, args []Value, _ ssa.CallInstruction) Value {
+		F := p.F
+		c := args[1].(*term.T)
+		es := byteElems(p, args[0], "bytealg.IndexByte")
+		res := F.BVConstI(-1, 64)
+		for i := len(es) - 1; i >= 0; i-- {
+			res = F.Ite(F.Eq(es[i], c), F.BVConst64(uint64(i), 64), res)
+		}
+		return res
+	}
+	r("internal/bytealg.IndexByte", indexByte)
+	r("internal/bytealg.IndexByteString", indexByte)
+
 	// ----- crypto/subtle.XORBytes -----
 	r("crypto/subtle.XORBytes", func(p *Path, _ *frame, _ *ssa.Function, args []Value, _ ssa.CallInstruction) Value {
 		F := p.F
